@@ -534,7 +534,7 @@ func init() {
 			if err != nil {
 				return nil, err
 			}
-			return NewBool(math.Floor(f) == f), nil
+			return NewBool(!math.IsInf(f, 0) && math.Floor(f) == f), nil
 		}
 		return cantConvert(self, "float")
 	}, 0, "is_integer() -> Return True if the float instance is finite with integral value, and False otherwise.")
